@@ -113,6 +113,7 @@ type LetSpec struct {
 }
 
 type CallSpec struct {
+	Assumed string // non-empty: the clause is assumed at the call site (reason), not proved
 	Callee string
 	Nth    int // -1 = all
 	Req    *Clause
@@ -142,6 +143,7 @@ type FuncContract struct {
 	AutoFrame  bool // loops carry the automatic invariant "cells that existed at entry are unchanged" for components outside modifies
 	Terminates bool
 	Uses       []string // lemmas to include
+	ExitHints  []Expr   // the same, evaluated in the state of every return (may mention result)
 	Hints      []Expr   // terms over entry values mentioned to the solver (E-matching seeds); no logical content
 	PanicsIf   []*Clause
 	Opaque     bool
@@ -1066,11 +1068,21 @@ func (p *parser) parseFuncContract() (*FuncContract, error) {
 				fc.Uses = append(fc.Uses, p.adv().s)
 			}
 		case "hint":
+			// "hint e" is evaluated at entry; "hint exit e" at every return (may mention result)
+			exit := false
+			if p.isId("exit") {
+				p.adv()
+				exit = true
+			}
 			e, err := p.parseExpr(0)
 			if err != nil {
 				return nil, err
 			}
-			fc.Hints = append(fc.Hints, e)
+			if exit {
+				fc.ExitHints = append(fc.ExitHints, e)
+			} else {
+				fc.Hints = append(fc.Hints, e)
+			}
 		case "funcparam":
 			// contract of calls through a function-typed parameter: funcparam NAME(params) (results) clauses... end
 			sub := &FuncContract{Kind: "funcparam", Loops: map[int]*LoopSpec{}}
@@ -1186,10 +1198,19 @@ func (p *parser) parseFuncContract() (*FuncContract, error) {
 				}
 				cs.Nth = k
 			}
-			if !p.isId("requires") {
-				return nil, p.errf("call clause needs requires")
+			// "call f [site k] assumes "reason" e": e is assumed where the call stands (an explicit, listed assumption
+			// about values produced by code that is abstracted, so that the callee's preconditions can be checked)
+			if p.isId("assumes") {
+				p.adv()
+				if p.peek().k != "str" {
+					return nil, p.errf("call ... assumes needs a reason string")
+				}
+				cs.Assumed = p.adv().s
+			} else if !p.isId("requires") {
+				return nil, p.errf("call clause needs requires or assumes")
+			} else {
+				p.adv()
 			}
-			p.adv()
 			c, err := p.parseClauseExpr("callreq")
 			if err != nil {
 				return nil, err
